@@ -61,6 +61,7 @@ class AwesomeyamlLoader(yaml.Loader):
         finally:
             self.__dict__.pop('_aliased_nodes', None)
             self.__dict__.pop('_first_nodes', None)
+            self.__dict__.pop('_constructing_again', None)
 
     @staticmethod
     def _make_generator(value, update_fn):
@@ -95,7 +96,9 @@ class AwesomeyamlLoader(yaml.Loader):
         if isinstance(aynode, ConfigNode):
             first = self.__dict__.setdefault('_first_nodes', {})
             if node not in first:
-                first[node] = aynode
+                if not self.__dict__.get('_constructing_again'):
+                    # at the place it is written at (an untagged container is filled late, possibly after a copy of it has been made)
+                    first[node] = aynode
             elif first[node] is not aynode and not first[node].ayns.safe:
                 # made again, for an alias of something unsafe: content does not become safe by being referred to from another place
                 aynode._implicit_safe = False
@@ -160,9 +163,11 @@ class AwesomeyamlLoader(yaml.Loader):
 
         collect(node)
         forgotten = { n: self.constructed_objects.pop(n) for n in below if n in self.constructed_objects }
+        nested, self._constructing_again = self.__dict__.get('_constructing_again', False), True
         try:
             return self.construct_object(node, deep=True)
         finally:
+            self._constructing_again = nested
             # what has been made for this place is not handed out again, the other places keep what they had
             for n in below:
                 if n in self.constructed_objects and not shared(n):
